@@ -168,6 +168,38 @@ def run(tier, seed):
             diffs.append(("receive_sparse", line[:120], oi[:80], om[:80]))
         if oi != "rc=0 out=" + vlib.hexs(want):
             viol.append({"case": line[:200], "why": "sparse transfer did not reconstruct the source bytes", "got": oi[:100]})
+    # ---- large regions through the real helper (implementation side only: the byte lists are too long for the
+    # extracted model, whose round-trip theorem covers every layout; what is checked here is the property itself on
+    # the binary).  Region lengths sit around the buffer sizes a streaming receiver could use (64 KiB .. 8 MiB, +-1
+    # and +4096), each followed by a hole or reaching the end of the file  (seed C14-5)
+    import random as _random
+    br = _random.Random(seed * 7919 + 14)
+    big = []
+    MiB = 1 << 20
+    sizes = [4 * MiB + 4096, 8 * MiB + 1] if tier == "quick" else [64 * 1024 + 1, MiB + 1, 2 * MiB + 4096, 4 * MiB - 1, 4 * MiB, 4 * MiB + 1, 4 * MiB + 4096, 6 * MiB, 8 * MiB + 1, 16 * MiB + 513]
+    for ln in sizes:
+        big.append((ln + 3 * 4096 + 8192, [(4096, ln), (ln + 3 * 4096, 100)]))   # a hole after the large region, then a small one
+        big.append((4096 + ln, [(4096, ln)]))                                      # the large region reaches the end of the file
+    big_bad = 0
+    for total, regs in big:
+        stream = b"".join(br.randbytes(l_ - 1) + b"\x07" for _, l_ in regs)
+        want = bytearray(total); pos = 0
+        for o_, l_ in regs:
+            want[o_:o_ + l_] = stream[pos:pos + l_]; pos += l_
+        line = "SP %d %s %s" % (total, ";".join("%d:%d" % e for e in regs), vlib.hexs(stream))
+        oi = vlib.run_sharded(hb, [line], env=env, shards=1)[0]
+        if oi != "rc=0 out=" + vlib.hexs(bytes(want)):
+            big_bad += 1
+            got = oi[len("rc=0 out="):] if oi.startswith("rc=0 out=") else None
+            where = "helper said " + oi[:60]
+            if got is not None:
+                gb = bytes.fromhex(got) if got != "-" else b""
+                k = next((i for i in range(min(len(gb), total)) if gb[i] != want[i]), min(len(gb), total))
+                where = "length %d (want %d), first difference at offset %d" % (len(gb), total, k)
+            viol.append({"case": "SP %d %s <%d random bytes, PRNG seed %d>" % (total, ";".join("%d:%d" % e for e in regs), len(stream), seed * 7919 + 14),
+                         "why": "sparse transfer with a large data region did not reconstruct the source bytes: " + where})
+    res.cov["large_region_layouts"] = len(big)
+    res.cov["large_region_sizes"] = sizes
     # short stream must be rejected
     short = ["SP 100 0:10;50:10 %s" % vlib.hexs(b"x" * 15)]
     si, sm_ = vlib.run_sharded(hb, short, env=env, shards=1)[0], vlib.run_model(short, shards=1)[0]
